@@ -476,6 +476,10 @@ def run():
     kch3, kerr3 = schema.run()
     kerr += kerr3
     changed += kch3
+    import methods
+    kch4, kerr4 = methods.run()
+    kerr += kerr4
+    changed += kch4
     kerr += [f"hashes.py section {k}: {v}" for k, v in section_errors.items()]
     return {"changed": changed, "fingerprints": fingerprints(), "kernel_errors": kerr, "section_errors": section_errors}
 
